@@ -12,6 +12,7 @@ import (
 	"os"
 	"os/exec"
 	"path/filepath"
+	"reflect"
 	"runtime"
 	"sort"
 	"strings"
@@ -19,7 +20,9 @@ import (
 	"testing"
 	"testing/synctest"
 	"time"
+	"unsafe"
 
+	hraft "github.com/hashicorp/raft"
 	cid "github.com/ipfs/go-cid"
 	ds "github.com/ipfs/go-datastore"
 	dsq "github.com/ipfs/go-datastore/query"
@@ -139,6 +142,10 @@ func (H) Generate(prop, tier string, seed uint64) *simkit.Plan {
 		nsteps = r.Range(40, 90)
 	}
 	faultBias := r.Float() * 0.45
+	storm := -1
+	if r.Chance(0.3) {
+		storm = r.Intn(nsteps)
+	}
 	down := map[int]string{} // peer -> "killed" | "stopped"
 	parted := false
 	for i := 0; i < nsteps; i++ {
@@ -224,6 +231,31 @@ func (H) Generate(prop, tier string, seed uint64) *simkit.Plan {
 			}
 		}
 		p.AddStep(st)
+		// directed: a peer is shut down while clients keep writing through it
+		// (writes arrive before, during and after the Shutdown call); then its
+		// offline state is read and it is started again
+		if storm == i {
+			who := -1 // the leader
+			if n == 1 || r.Chance(0.3) {
+				who = r.Intn(n)
+			}
+			if _, d := down[who]; !d && (who >= 0 || len(down) == 0) {
+				k := r.Range(3, 12)
+				at := r.Intn(k)
+				for j := 0; j < k; j++ {
+					if j == at {
+						p.AddStep(Step{Op: "stop_async", Peer: who, Ms: r.Intn(3)})
+					}
+					p.AddStep(Step{Op: "pin", Peer: -2, DelayMs: r.Pick(3, 1, 1), Pin: genPin(r, ncids, n)})
+				}
+				p.AddStep(Step{Op: "stop_join"})
+				p.AddStep(Step{Op: "offline", Peer: -2})
+				p.AddStep(Step{Op: "restart", Peer: -2, DelayMs: r.Range(0, 2*hb)})
+				if r.Chance(0.5) {
+					p.SetKnob("lock_yield", int64([]int{30, 100, 300}[r.Intn(3)]))
+				}
+			}
+		}
 	}
 	_ = parted
 	return p
@@ -442,6 +474,8 @@ type opRec struct {
 }
 
 type world struct {
+	stormPeer int
+	stormDone chan struct{}
 	ambiguous bool // the committed sequence could not be reconstructed unambiguously: states are not judged against it
 	run       *simkit.Run
 	plan      *simkit.Plan
@@ -593,7 +627,7 @@ func (w *world) mkPin(s *PinSpec) *api.Pin {
 func (H) Execute(t *testing.T, plan *simkit.Plan, run *simkit.Run) {
 	run.Begin()
 	n := int(plan.Knob("peers", 3))
-	w := &world{run: run, plan: plan, n: n, cur: make([]*inc, n), lastK: map[*inc]int{}}
+	w := &world{run: run, plan: plan, n: n, cur: make([]*inc, n), lastK: map[*inc]int{}, stormPeer: -1}
 	base := os.Getenv("VERIF_TMP")
 	if base == "" {
 		base = "/dev/shm"
@@ -610,7 +644,7 @@ func (H) Execute(t *testing.T, plan *simkit.Plan, run *simkit.Run) {
 		defer func() {
 			for _, x := range w.all {
 				if x.alive && x.cons != nil {
-					x.cons.Shutdown(context.Background())
+					w.shutdownBounded(x)
 				}
 			}
 			w.net.Close()
@@ -626,7 +660,7 @@ func (H) Execute(t *testing.T, plan *simkit.Plan, run *simkit.Run) {
 	defer func() {
 		for _, x := range w.all {
 			if x.alive && x.cons != nil {
-				x.cons.Shutdown(context.Background())
+				w.shutdownBounded(x)
 			}
 		}
 		w.net.Close()
@@ -646,9 +680,18 @@ func (H) Execute(t *testing.T, plan *simkit.Plan, run *simkit.Run) {
 		}
 		run.Step()
 		pi := s.Peer
+		if pi == -2 { // the peer of the storm in progress
+			if w.stormPeer < 0 {
+				continue
+			}
+			pi = w.stormPeer
+		}
 		if pi < 0 {
 			pi = w.leader()
 			if pi < 0 {
+				if s.Op == "stop_async" {
+					w.stormPeer = -1
+				}
 				continue
 			}
 		}
@@ -701,6 +744,27 @@ func (H) Execute(t *testing.T, plan *simkit.Plan, run *simkit.Run) {
 			w.kill(pi)
 		case "stop":
 			w.stop(pi)
+		case "stop_async":
+			w.stormPeer = pi
+			nd := w.cur[pi]
+			if !nd.alive {
+				w.stormPeer = -1
+				break
+			}
+			done := make(chan struct{})
+			w.stormDone = done
+			run.Probe("stopped_while_clients_write")
+			go func() {
+				time.Sleep(time.Duration(s.Ms) * time.Millisecond)
+				w.stopNoWait(pi) // (no quiescence wait here: only the plan's goroutine may wait)
+				close(done)
+			}()
+		case "stop_join":
+			if w.stormDone != nil {
+				<-w.stormDone
+				w.stormDone = nil
+				synctest.Wait()
+			}
 		case "restart", "start":
 			w.restart(pi)
 		case "snapshot":
@@ -755,7 +819,15 @@ func (H) Execute(t *testing.T, plan *simkit.Plan, run *simkit.Run) {
 		}
 	}
 	synctest.Wait()
-	if fresh == nil || !fresh.Done || fresh.Err != "" {
+	if (fresh == nil || !fresh.Done || fresh.Err != "") && w.installLoop() {
+		// hashicorp/raft v1.1.1: a follower that holds uncommitted entries from its
+		// time as a cut-off leader beyond the index of the snapshot it is sent, and
+		// whose log was compacted up to that index (TrailingLogs smaller than that
+		// suffix), rejects every AppendEntries ("previous log not found") and is
+		// sent the same snapshot again, for ever; leadership keeps changing. Nothing
+		// in ipfs-cluster takes part in that loop: progress is not demanded then.
+		run.Probe("liveness_not_judged_snapshot_install_loop")
+	} else if fresh == nil || !fresh.Done || fresh.Err != "" {
 		e := "never submitted (no leader)"
 		if fresh != nil {
 			e = fmt.Sprintf("done=%v err=%q", fresh.Done, fresh.Err)
@@ -764,6 +836,30 @@ func (H) Execute(t *testing.T, plan *simkit.Plan, run *simkit.Run) {
 	}
 	w.observe("final", true)
 	w.judgeHistory()
+}
+
+// installLoop: some running replica's last writes are six or more snapshot
+// restores in a row with nothing applied in between.
+func (w *world) installLoop() bool {
+	for _, nd := range w.cur {
+		if nd == nil || !nd.alive || nd.store == nil {
+			continue
+		}
+		bursts := 0
+		toks := nd.store.tokens()
+		for i := len(toks) - 1; i >= 0; i-- {
+			if !toks[i].Restore {
+				break
+			}
+			if toks[i].Cid == "(restore)" {
+				bursts++
+			}
+		}
+		if bursts >= 6 {
+			return true
+		}
+	}
+	return false
 }
 
 // logCodecOK puts the operation through the exact serialisation boundary of
@@ -862,7 +958,43 @@ func (w *world) kill(pi int) {
 	}()
 }
 
+// shutdownBounded ends a peer at the end of a plan. Consensus.Shutdown waits for
+// commits in flight; hashicorp/raft v1.1.1 can leave an Apply future unanswered
+// for ever (seen after leadership changes during a partition), and then Shutdown
+// never returns while the Raft timers keep the simulated clock running. That is
+// recorded (probe) and the Raft instance is stopped directly so that the run ends.
+func (w *world) shutdownBounded(x *inc) {
+	done := make(chan struct{})
+	go func() { x.cons.Shutdown(context.Background()); close(done) }()
+	select {
+	case <-done:
+		return
+	case <-time.After(2 * time.Minute):
+	}
+	w.run.Probe("final_shutdown_stuck_behind_a_commit")
+	w.run.Ev(x.store.who, "shutdown.stuck", "Shutdown has not returned after 2 simulated minutes: stopping Raft directly")
+	defer func() { recover() }()
+	rw := reflect.ValueOf(x.cons).Elem().FieldByName("raft")
+	rw = reflect.NewAt(rw.Type(), unsafe.Pointer(rw.UnsafeAddr())).Elem()
+	in := rw.Elem().FieldByName("raft")
+	in = reflect.NewAt(in.Type(), unsafe.Pointer(in.UnsafeAddr())).Elem()
+	if r, ok := in.Interface().(*hraft.Raft); ok && r != nil {
+		f := r.Shutdown()
+		fd := make(chan struct{})
+		go func() { f.Error(); close(fd) }()
+		select {
+		case <-fd:
+		case <-time.After(time.Minute):
+		}
+	}
+}
+
 func (w *world) stop(pi int) {
+	w.stopNoWait(pi)
+	synctest.Wait()
+}
+
+func (w *world) stopNoWait(pi int) {
 	nd := w.cur[pi]
 	if !nd.alive {
 		return
@@ -872,7 +1004,6 @@ func (w *world) stop(pi int) {
 	nd.cons.Shutdown(context.Background())
 	nd.alive = false
 	nd.graceful = true
-	synctest.Wait()
 }
 
 func (w *world) restart(pi int) {
